@@ -95,6 +95,7 @@ WHERE_SEQ = 'sequence of simulate / calculate_likelihood / estimate on one BIOGE
 MATCHERS = {
     'rethread': lambda case: isinstance(case, dict) and 'rethread' in case,
     'after_bootstrap': lambda case: isinstance(case, dict) and str(case.get('step', '')).startswith('after-bootstrap'),
+    'split_float_labels': lambda case: isinstance(case, dict) and isinstance(case.get('table'), dict) and has_float_labels(case['table']) and ('db_split' in case or 'validate' in case),
     'stale_object': lambda case: isinstance(case, dict) and 'hist_ops' in case and 'stale object' in str(case.get('step', '')),
 }
 
@@ -113,6 +114,17 @@ number_of_threads = {T}
 """
 
 # ----------------------------------------------------------------------------- building real objects
+
+
+def canon(i):
+    """a row label as a JSON-able value (labels need be neither integers nor unique)"""
+    if isinstance(i, (bool, np.bool_)):
+        return int(i)
+    if isinstance(i, (int, np.integer)):
+        return int(i)
+    if isinstance(i, (float, np.floating)):
+        return int(i) if float(i).is_integer() else float(i)
+    return str(i)
 
 
 def n_params(formula: str) -> int:
@@ -282,7 +294,7 @@ def evaluate(database, case, T, via='kwarg', derivs=True, dicts=None, init_items
             return s_, l_, w_
 
         sim, out['l'], out['w'] = sim_at(dict(zip(names, x)))
-        out['sim_index'] = [int(i) for i in sim.index]
+        out['sim_index'] = [canon(i) for i in sim.index]
         out['sim_keys'] = list(sim.columns)
         # the same parameter point written as other dicts (order of the entries, foreign entries, missing entries)
         out['dicts'] = []
@@ -376,15 +388,36 @@ def gen_table(rng, N, adversarial=False):
                 cols['L'][i] = -big
             elif r < 0.75:
                 cols['L'][i] = rng.choice([1.0, 0.5, 3.0, 1e-3, 0.1])
+    index, mode = gen_index(rng, N)
+    return {'cols': cols, 'index': index, 'index_kind': mode}
+
+
+def gen_index(rng, N):
+    """row labels: labels are not positions (permuted, gapped), not unique (two files put together with pd.concat
+    without ignore_index, a resampled frame), not integers"""
     index = list(range(N))
-    mode = rng.choice(['range', 'shuffled', 'gaps'])
+    mode = rng.choice(['range', 'shuffled', 'gaps', 'duplicated', 'duplicated', 'strings', 'floats'])
     if mode == 'shuffled':
         rng.shuffle(index)
     elif mode == 'gaps':
         index = sorted(rng.sample(range(5 * N + 5), N))
         if rng.random() < 0.5:
             rng.shuffle(index)
-    return {'cols': cols, 'index': index}
+    elif mode == 'duplicated':
+        if N >= 2 and rng.random() < 0.6:
+            a = rng.randint(1, N - 1)  # concat of two files: 0..a-1, 0..N-a-1
+            index = list(range(a)) + list(range(N - a))
+        else:
+            index = [rng.randrange(max(1, N // 2)) for _ in range(N)]  # resampled with replacement
+        if rng.random() < 0.3:
+            rng.shuffle(index)
+    elif mode == 'strings':
+        index = [f'r{v}' for v in rng.sample(range(3 * N + 3), N)]
+        if rng.random() < 0.3 and N >= 2:
+            index[-1] = index[0]
+    elif mode == 'floats':
+        index = [v / 2 for v in rng.sample(range(4 * N + 4), N)]
+    return index, mode
 
 
 def gen_case(rng, N=None, formula=None, adversarial=False):
@@ -815,7 +848,7 @@ def check_case(ctx, res, case, threads=None, n_perm=2, do_split=True, rng=None, 
             if rec['w'] is not None and not bits_equal(pr['w'], rec['w']):
                 res.violate('simulate reports the per-observation value of the weight formula', desc, rec['w'], pr['w'], where='simulate')
         oracle_derivs(rec, pr, desc, res, 'calculate_likelihood_and_derivatives')
-        if rec['sim_index'] != [int(i) for i in table['index']]:
+        if rec['sim_index'] != [canon(i) for i in table['index']]:
             res.diverge('index of the simulated table', desc, table['index'], rec['sim_index'])
         compare_model(ctx, res, rec, pr, T, desc)
         base[T] = rec
@@ -1083,9 +1116,7 @@ def gen_history(rng, stale=False):
     for i in rng.sample(range(N), rng.randint(1, N - 2)):
         flags[i] = 1.0
     rows = [[dy(rng, -4, 1), dy(rng, -2, 2), rng.choice([0.25, 0.5, 1.0, 1.0, 2.0, 3.5, 0.0]), flags[i], dy(rng, -1, 1)] for i in range(N)]
-    index = list(range(N))
-    if rng.random() < 0.5:
-        index = rng.sample(range(3 * N), N)
+    index, index_kind = gen_index(rng, N)
     ops, shadow, nobj, removed, ncol = [], [list(r) for r in rows], 0, False, len(HCOLS)
     edited_since = {}  # object -> an edit happened since its engine received the table
 
@@ -1147,7 +1178,7 @@ def gen_history(rng, stale=False):
         query(k)
         query(nobj - 1)
         query(rng.randrange(nobj))
-    return {'hist_rows': rows, 'hist_index': index, 'b0': rng.randint(-8, 8) / 8.0, 'hist_ops': ops, 'np_seed': rng.randint(1, 10**6)}
+    return {'hist_rows': rows, 'hist_index': index, 'index_kind': index_kind, 'b0': rng.randint(-8, 8) / 8.0, 'hist_ops': ops, 'np_seed': rng.randint(1, 10**6)}
 
 
 def run_history(case):
@@ -1207,8 +1238,8 @@ def run_history(case):
                 out.append({'L': L_, 'Ls': Ls_,
                             'f': float(r.function), 'g': float(r.gradient[0]), 'h': float(r.hessian[0][0]) if op['hessian'] else None, 'b': float(r.bhhh[0][0]) if op['bhhh'] else None,
                             'l': [float(v) for v in sim['log_like'].values], 'w': [float(v) for v in sim['weight'].values] if bop['weighted'] else None,
-                            'sim_index': [int(i) for i in sim.index], 'N': int(d.get_sample_size()),
-                            'table': [[float(v) for v in row] for row in d.data[names].values.tolist()], 'index': [int(i) for i in d.data.index],
+                            'sim_index': [canon(i) for i in sim.index], 'N': int(d.get_sample_size()),
+                            'table': [[float(v) for v in row] for row in d.data[names].values.tolist()], 'index': [canon(i) for i in d.data.index],
                             'same_frame': d.data is d.fullData})
     return out
 
@@ -1269,6 +1300,7 @@ def check_history(ctx, res, case, isolate=False):
             return
     ops = case['hist_ops']
     res.count({'history': desc0}, nontrivial=True)
+    res.tally(f'history:index={case.get("index_kind", "corpus")}')
     b0 = case['b0']
     # closed form, independent of the library and of the model: the table after the edits made so far
     shadow, index = [list(map(float, r)) for r in case['hist_rows']], list(case['hist_index'])
@@ -1355,6 +1387,17 @@ def check_history(ctx, res, case, isolate=False):
 # ----------------------------------------------------------------------------- Database.split: parts whose values are added
 
 WHERE_SPLIT = 'Database.split: estimation / validation sets'
+WHERE_SPLIT_FLOAT = 'Database.split without groups on a frame whose row labels are floats (numpy.array_split slices the frame by label)'
+
+
+def has_float_labels(table):
+    return any(isinstance(v, float) for v in table['index'])
+
+
+def split_error(res, e, desc, table, groups, where, what):
+    """an exception of Database.split on a valid request (F-C04-4: KeyError on float labels, branch without groups)"""
+    known = groups is None and isinstance(e, KeyError) and has_float_labels(table)
+    res.violate(f'{what} raises {type(e).__name__}: {str(e)[:150]} on a valid request', desc, core.exc_kind(e), 'estimation / validation sets', where=WHERE_SPLIT_FLOAT if known else where)
 
 
 def check_db_split(ctx, res, rng, forced=None):
@@ -1379,42 +1422,50 @@ def check_db_split(ctx, res, rng, forced=None):
     desc = describe(case, db_split={'slices': slices, 'groups': groups, 'np_seed': np_seed})
     iso_f.note(desc, WHERE_SPLIT)
     table = case['table']
-    labels = [int(i) for i in table['index']]
+    labels = [canon(i) for i in table['index']]
+    # F-C04-4: on float labels the branch without groups slices the frame by label (KeyError, or rows lost silently)
+    wsplit = WHERE_SPLIT_FLOAT if groups is None and has_float_labels(table) else WHERE_SPLIT
+
+    def frame():
+        df = make_df(table)
+        df['RID'] = [float(p) for p in range(N)]  # the identity of a row (labels need not be unique)
+        return df
+
     try:
         np.random.seed(np_seed)
-        full = db.Database('t', make_df(table))
+        full = db.Database('t', frame())
         pairs = full.split(slices, groups=groups)
     except Exception as e:  # noqa: BLE001
-        res.violate(f'Database.split raises {type(e).__name__}: {str(e)[:150]} on a valid request', desc, core.exc_kind(e), 'estimation / validation sets', where=WHERE_SPLIT)
+        split_error(res, e, desc, table, groups, WHERE_SPLIT, 'Database.split')
+        res.tally(f'db.split:raises:index={table.get("index_kind")}')
         return
     res.count({'db_split': desc}, nontrivial=True)
-    res.tally(f'db.split:{slices}' + (':groups' if groups else ''))
+    res.tally(f'db.split:{slices}' + (':groups' if groups else '') + f':index={table.get("index_kind")}')
     ref = evaluate_safe(res, db.Database('t', make_df(table)), case, rng.choice([1, 2, 3, 0]), 'kwarg', desc, derivs=False)
     if ref is None:
         return
     terms = ref['l'] if ref['w'] is None else [a * b for a, b in zip(ref['w'], ref['l'])]
     tol = 2 * tol_for(terms, N)
-    pos = {lab: p for p, lab in enumerate(labels)}
 
     def part_table(df):
-        ps = [pos[int(i)] for i in df.index]
+        ps = [int(v) for v in df['RID'].values]
         return ps, sub_table(table, ps)
 
     val_rows, val_L = [], []
     if len(pairs) != slices:
-        res.violate('Database.split returns one (estimation, validation) pair per slice', desc, len(pairs), slices, where=WHERE_SPLIT)
+        res.violate('Database.split returns one (estimation, validation) pair per slice', desc, len(pairs), slices, where=wsplit)
         return
     for i, pr_ in enumerate(pairs):
         vals = {}
         for name, df in (('estimation', pr_.estimation), ('validation', pr_.validation)):
             ps, st = part_table(df)
-            if df[COLS].values.tolist() != [[float(st['cols'][c][r]) for c in COLS] for r in range(len(ps))]:
-                res.violate(f'the rows of the {name} set {i} are rows of the table (values follow their labels)', desc, df[COLS].values.tolist(), 'rows of the table', where=WHERE_SPLIT)
+            if df[COLS].values.tolist() != [[float(st['cols'][c][r]) for c in COLS] for r in range(len(ps))] or [canon(v) for v in df.index] != [labels[q] for q in ps]:
+                res.violate(f'the rows of the {name} set {i} are rows of the table (values and labels follow their rows)', desc, [df[COLS].values.tolist(), [canon(v) for v in df.index]], 'rows of the table', where=wsplit)
                 return
             vals[name] = (ps, st)
         ev, vv = vals['estimation'][0], vals['validation'][0]
         if sorted(ev + vv) != list(range(N)):
-            res.violate(f'estimation set {i} + validation set {i} = every row of the table exactly once', desc, {'estimation': ev, 'validation': vv}, list(range(N)), where=WHERE_SPLIT)
+            res.violate(f'estimation set {i} + validation set {i} = every row of the table exactly once (multiset of the rows; {len(ev) + len(vv)} rows for {N})', desc, {'estimation': ev, 'validation': vv}, list(range(N)), where=wsplit)
             return
         Ls = {}
         for name, (ps, st) in vals.items():
@@ -1429,7 +1480,7 @@ def check_db_split(ctx, res, rng, forced=None):
             compare_model(ctx, res, rec, None, T, dict(desc, part=[name, i], threads=T))
             Ls[name] = rec['L']
         if not abs(Ls['estimation'] + Ls['validation'] - ref['L']) <= tol:
-            res.violate(f'log likelihood of estimation set {i} + log likelihood of validation set {i} = log likelihood of the table', desc, Ls, ref['L'], where=WHERE_SPLIT)
+            res.violate(f'log likelihood of estimation set {i} + log likelihood of validation set {i} = log likelihood of the table', desc, Ls, ref['L'], where=wsplit)
         val_rows.extend(vv)
         val_L.append(Ls['validation'])
     if groups is None and sorted(val_rows) == list(range(N)):
@@ -1442,9 +1493,92 @@ def check_db_split(ctx, res, rng, forced=None):
 
         ctx.batch.add_many([{'op': 'dbsplit', 'shuffled': val_rows, 'k': slices}], cb)
     if sorted(val_rows) != list(range(N)):
-        res.violate('the validation sets of Database.split are a partition of the rows (every row in exactly one)', desc, sorted(val_rows), list(range(N)), where=WHERE_SPLIT)
+        res.violate('the validation sets of Database.split are a partition of the rows (every row in exactly one)', desc, sorted(val_rows), list(range(N)), where=wsplit)
     elif not abs(math.fsum(val_L) - ref['L']) <= tol:
-        res.violate('sum of the log likelihoods of the validation sets = log likelihood of the table', desc, {'parts': val_L, 'sum': math.fsum(val_L)}, ref['L'], where=WHERE_SPLIT)
+        res.violate('sum of the log likelihoods of the validation sets = log likelihood of the table', desc, {'parts': val_L, 'sum': math.fsum(val_L)}, ref['L'], where=wsplit)
+
+
+
+# ----------------------------------------------------------------------------- BIOGEME.validate: estimation on each estimation set, simulation on the validation set
+
+WHERE_VALIDATE = 'BIOGEME.validate(results, Database.split(slices)): one simulated log likelihood per row of the table'
+
+
+def check_validate(ctx, res, rng, forced=None):
+    """the route of out-of-sample validation: `Database.split` (no groups) -> per fold an estimation on the estimation set and
+    a simulation on the validation set.  log_like = L - (b - X)^2: the estimate of fold i is the mean of X over its
+    estimation rows (closed form), so every reported per-row value is known; over the folds every row is reported once."""
+    import warnings
+
+    import biogeme.biogeme as bio
+    import biogeme.database as db
+    from biogeme.expressions import Beta, Variable
+
+    if forced is not None:
+        case = forced
+    else:
+        N = rng.choice([4, 5, 6, 8, 11, 13])
+        case = {'table': gen_table(rng, N), 'validate': {'slices': rng.randint(2, min(4, N - 1)), 'np_seed': rng.randint(1, 10**6), 'threads': rng.choice([1, 2, 3, 0])}}
+    table, v = case['table'], case['validate']
+    N = len(table['index'])
+    desc = {'table': table, 'validate': v}
+    iso_f.note(desc, WHERE_VALIDATE)
+    labels = [canon(i) for i in table['index']]
+    try:
+        with core.scratch(SEQ_TOML.format(T=5, B=2)), warnings.catch_warnings():
+            warnings.simplefilter('ignore')
+            df = make_df(table)
+            df['RID'] = [float(p) for p in range(N)]
+            d = db.Database('t', df)
+            b = Beta('b', 0.0, None, None, 0)
+            ll = Variable('L') - (b - Variable('X')) * (b - Variable('X'))
+            B = bio.BIOGEME(d, ll, number_of_threads=v['threads'])
+            B.modelName = 'val'
+            results = B.estimate()
+            np.random.seed(v['np_seed'])
+            try:
+                folds = d.split(v['slices'])
+            except Exception as e:  # noqa: BLE001
+                split_error(res, e, desc, table, None, WHERE_VALIDATE, 'Database.split (validation route)')
+                res.tally(f'validate:split raises:index={table.get("index_kind")}')
+                return
+            parts = [[[int(r) for r in f.estimation['RID'].values], [int(r) for r in f.validation['RID'].values]] for f in folds]
+            sims = B.validate(results, folds)
+            sims = [{'index': [canon(i) for i in sdf.index], 'l': [float(x) for x in sdf['Loglikelihood'].values]} for sdf in sims]
+            b_full = float(results.get_beta_values()['b'])
+    except Exception as e:  # noqa: BLE001
+        res.violate(f'BIOGEME.validate raises {type(e).__name__}: {str(e)[:150]} on a valid table', desc, core.exc_kind(e), 'one simulated table per fold', where=WHERE_SPLIT_FLOAT if has_float_labels(table) else WHERE_VALIDATE)  # F-C04-4: a part may be empty
+        return
+    res.count({'validate': desc}, nontrivial=True)
+    wval = WHERE_SPLIT_FLOAT if has_float_labels(table) else WHERE_VALIDATE
+
+    res.tally(f'validate:{v["slices"]}:index={table.get("index_kind")}')
+    X, L = table['cols']['X'], table['cols']['L']
+    if not abs(b_full - math.fsum(X) / N) <= 1e-5:
+        res.violate('estimate on the table: the maximum of sum_n L_n - (b - X_n)^2 is the mean of X', desc, b_full, math.fsum(X) / N, where=wval)
+    if len(sims) != v['slices'] or len(parts) != v['slices']:
+        res.violate('BIOGEME.validate returns one simulated table per fold', desc, len(sims), v['slices'], where=wval)
+        return
+    reported = []
+    for i, ((ev, vv), sim) in enumerate(zip(parts, sims)):
+        if sorted(ev + vv) != list(range(N)):
+            res.violate(f'fold {i}: estimation set + validation set = every row of the table exactly once ({len(ev) + len(vv)} rows for {N})', desc, {'estimation': ev, 'validation': vv}, list(range(N)), where=wval)
+            return
+        b_i = math.fsum(X[p] for p in ev) / len(ev)
+        exp_l = [L[p] - (b_i - X[p]) ** 2 for p in vv]
+        if sim['index'] != [labels[p] for p in vv] or not near(sim['l'], exp_l, rel=1e-5):
+            res.violate(f'fold {i}: the simulated table reports, row by row of the validation set, the value at the estimate of the estimation set', desc, sim, {'index': [labels[p] for p in vv], 'l': exp_l}, where=wval)
+            return
+        reported.extend(vv)
+    if sorted(reported) != list(range(N)):
+        res.violate('over the folds of BIOGEME.validate every row of the table is reported exactly once', desc, sorted(reported), list(range(N)), where=wval)
+        return
+    # the slices against Likelihood.dbSplit on the same shuffle
+    def cb(ans, parts=parts):
+        if ans[0].get('pairs') != parts:
+            res.diverge('Database.split inside the validation route vs Likelihood.dbSplit', desc, ans[0].get('pairs'), parts)
+
+    ctx.batch.add_many([{'op': 'dbsplit', 'shuffled': reported, 'k': v['slices']}], cb)
 
 
 # ----------------------------------------------------------------------------- panel data: blocks of individuals
@@ -1768,7 +1902,7 @@ def check_impl(ctx) -> Result:
         check_panel_threads(ctx, res, rng)
     for _ in range(ctx.n(7, 70)):
         check_panel_case(ctx, res, gen_panel_case(rng))
-        if len([v for v in res.violations if v.get('where') not in (WHERE_RETHREAD, WHERE_BOOT, WHERE_STALE)]) > 5:
+        if len([v for v in res.violations if v.get('where') not in (WHERE_RETHREAD, WHERE_BOOT, WHERE_STALE, WHERE_SPLIT_FLOAT)]) > 5:
             break
     mark('panel')
     # one object used for several calls in a row, with an estimation in between (F-C04-2: with bootstrap)
@@ -1785,10 +1919,20 @@ def check_impl(ctx) -> Result:
     for i in range(ctx.n(10, 150)):
         check_history(ctx, res, gen_history(rng, stale=STALE_QUERIES and i % 3 == 2 and i < 30))  # stale ones run in a process of their own
     mark('histories')
-    for _ in range(ctx.n(4, 60)):
+    # labels that are not positions: two files put together (repeated labels), float labels (F-C04-4), strings
+    for seed_, index_, kind_ in ((51, [0, 1, 2, 3, 4, 5, 6, 0, 1, 2, 3, 4, 5], 'duplicated'), (52, [0.0, 1.0, 2.0, 3.0, 4.0, 5.0], 'floats'), (53, ['b', 'a', 'c', 'a', 'e'], 'strings')):
+        crng = core.rng_for('C04-corpus', seed_)
+        ccase = gen_case(crng, N=len(index_), formula='quad')
+        ccase['table']['index'], ccase['table']['index_kind'] = index_, kind_
+        ccase['db_split'] = {'slices': 3 if len(index_) > 6 else 2, 'groups': None, 'np_seed': 1000 + seed_}
+        check_db_split(ctx, res, crng, forced=ccase)
+        res.tally('corpus')
+    for _ in range(ctx.n(6, 60)):
         check_db_split(ctx, res, rng)
+    for _ in range(ctx.n(4, 40)):
+        check_validate(ctx, res, rng)
     mark('db.split')
-    n_cases = ctx.n(60, 650)
+    n_cases = ctx.n(52, 650)
     for i in range(n_cases):
         adversarial = i % 3 == 0
         case = gen_case(rng, formula='col' if adversarial and rng.random() < 0.7 else None, adversarial=adversarial)
@@ -1800,8 +1944,9 @@ def check_impl(ctx) -> Result:
         check_case(ctx, res, case, threads=ts, n_perm=1 if ctx.quick else 2)
         res.tally(f'formula={case["formula"]}')
         res.tally(f'weight={case["weight"]}')
+        res.tally(f'index={case["table"].get("index_kind")}')
         res.tally('N=1' if N == 1 else 'N=2-5' if N <= 5 else 'N=6-16' if N <= 16 else 'N=17-40')
-        if len([v for v in res.violations if v.get('where') not in (WHERE_RETHREAD, WHERE_BOOT, WHERE_STALE)]) > 5:
+        if len([v for v in res.violations if v.get('where') not in (WHERE_RETHREAD, WHERE_BOOT, WHERE_STALE, WHERE_SPLIT_FLOAT)]) > 5:
             break
     mark('cases')
     ctx.batch.flush()
@@ -1844,6 +1989,20 @@ def search(ctx, res, broken):
 def replay_impl(ctx, obj):
     case = obj.get('case') or {}
     out = {'replayed': obj.get('what')}
+    if 'validate' in case:
+        class NoBatchV:
+            def add_many(self, reqs, cb):
+                pass
+
+        class CV:
+            pass
+
+        cv = CV()
+        cv.batch = NoBatchV()
+        r = Result()
+        check_validate(cv, r, core.rng_for('C04-replay', 0), forced=case)
+        out.update({'property_fails': bool(r.violations), 'violations': r.violations[:3]})
+        return out
     if 'db_split' in case:
         class NoBatch0:
             def add_many(self, reqs, cb):
